@@ -280,10 +280,12 @@ def query_violation(rec):
     shared = next((x[1:] for x in parts[3:] if x.startswith('s')), None)
     if shared is not None and shared != a:
         return ('query-shared-context', 'with the evaluation context the earlier queries of this history used the edited document selects ranks %s, with a fresh context %s' % (shared, a))
-    if a != '-' and a not in ('scalar', 'err', 'panic') and '?' not in a:
-        rk = [int(x) for x in a.split('.')]
-        if any(y <= x for x, y in zip(rk, rk[1:])):
-            return ('query-order', 'node-set on the edited document is not in document order / has duplicates: ranks %s (re-parse: %s)' % (a, b))
+    raw = next((x[1:] for x in parts[3:] if x.startswith('r')), None)
+    for label, v in (('merged-text', a), ('raw', raw)):
+        if v and v != '-' and v not in ('scalar', 'err', 'panic') and '?' not in v:
+            rk = [int(x) for x in v.split('.')]
+            if any(y <= x for x, y in zip(rk, rk[1:])):
+                return ('query-order', 'node-set on the edited document (%s view) is not in document order / has duplicates: ranks %s' % (label, v))
     if b == 'noparse':
         return None
     if a == b:
@@ -829,6 +831,15 @@ def campaign(run, log=lib.log):
     # (d) the same histories with XPath query batches, implementation only, merged view, no dumps
     QH = [(d, with_queries(o, rng), 'm!9999') for d, o, v in H[:(len(H) if thorough else 300)]]
     QH += [(d, with_queries(o[:12], rng, dense=True), 'm!9999') for d, o, v in H[:(len(H) if thorough else 400)]]
+    # (e) every single edit of a small alphabet, preceded by a warm-up batch and followed AT ONCE by queries
+    for qdoc in ('<r>ab<x/>cd<y i="1" j="2"><z/></y>ef</r>', DOCS[-1]):
+        rec0q = parse_line(run_impl([mkcase([qdoc], [])], shards=1)[0])[0]
+        alpha_q = short_alphabet(rec0q, [qdoc])
+        if not thorough:
+            alpha_q = [o for o in alpha_q if o[0] in ('ST', 'SD', 'SV', 'SA', 'RA')] + rng.sample(alpha_q, min(120, len(alpha_q)))
+        for o in alpha_q:
+            qs = rng.sample(QUERIES, 6) + ['//node()', '//text()|//*', '//@*|//*']
+            QH.append(([qdoc], [('Q', 0, q) for q in qs[:3]] + [o] + [('Q', 0, q) for q in qs], 'm!9999'))
     lines = [mkcase(*c) for c in QH]
     il = run_impl(lines)
     analyse(QH, il, None, summary, memo, 'queries')
